@@ -232,6 +232,23 @@ def quiescentBad (cfg : Cfg) (cache : Mod → Par → Entry) (tr : List Obs) : O
 def OthersUnaffected (cfg : Cfg) (σ σ' : State) (a : Act) : Prop :=
   step cfg σ a = some σ' → ∀ c' m p, a.t ≠ .h c' → listens σ' c' m p = listens σ c' m p
 
+/-! ## replies answer requests (well-formedness of a connection's part of the trace) -/
+
+def matchNext (op : Conn → Option Req) : Obs → Conn → Option Req
+  | .reqStart c r => set op c (some r)
+  | .reply c _ _ => set op c none
+  | _ => op
+
+def matchOk (op : Conn → Option Req) : Obs → Bool
+  | .reqStart c _ => op c == none
+  | .reply c r _ => op c == some r
+  | _ => true
+
+/-- a request marker of `c` comes only when no request of `c` is open; a reply to `c` answers the request that is open -/
+def matchMon : Mon (Conn → Option Req) := ⟨fun _ => none, matchNext, matchOk⟩
+
+def RepliesMatch (tr : List Obs) : Prop := matchMon.accepts tr = true
+
 /-! ## the tables belong to the requests
 
 "The scopes of other connections are unaffected", read on the dispatcher's tables themselves rather than on what they
